@@ -280,9 +280,16 @@ impl Chunk for MwmoChunk {
             return Ok(Self::new());
         }
 
-        // Read all data
-        let mut data = vec![0u8; size];
-        reader.read_exact(&mut data)?;
+        // Read all data. `size` comes from the chunk header and is untrusted: read at most
+        // `size` bytes and let the buffer grow with what the stream really holds.
+        let mut data = Vec::new();
+        reader.take(size as u64).read_to_end(&mut data)?;
+        if data.len() != size {
+            return Err(Error::InvalidChunkData {
+                chunk: "MWMO".to_string(),
+                message: format!("Chunk declares {size} bytes but only {} follow", data.len()),
+            });
+        }
 
         // Split by null terminators
         let mut filenames = Vec::new();
@@ -409,7 +416,9 @@ impl Chunk for ModfChunk {
         }
 
         let count = size / 64;
-        let mut entries = Vec::with_capacity(count);
+        // `count` derives from the untrusted chunk size: cap the pre-allocation, the loop
+        // below stops with an I/O error as soon as the stream ends.
+        let mut entries = Vec::with_capacity(count.min(1024));
 
         for _ in 0..count {
             let mut buf = [0u8; 4];
